@@ -6,7 +6,11 @@ from collections import defaultdict
 class Facts:
     def __init__(self, path, cfg_id="?"):
         with open(path) as f:
-            d = json.load(f)
+            txt = f.read()
+        # no_std builds print std items under std:: / std:: — normalise so that rules match one spelling
+        import re
+        txt = re.sub(r"\b(?:core|alloc)::", "std::", txt)
+        d = json.loads(txt)
         self.cfg_id = cfg_id
         self.raw = d
         self.crate = d["crate"]
